@@ -52,14 +52,43 @@ def _library_classes():
     return out
 
 
+_MODULE_PRISTINE = {}
+
+
+def _library_module_globals():
+    """(module, name, value) for every module-level dict / list / set of the edgegraph package"""
+    import sys
+    out = []
+    for name, mod in list(sys.modules.items()):
+        if (name == "edgegraph" or name.startswith("edgegraph.")) and mod is not None:
+            for gname, val in list(vars(mod).items()):
+                if gname.startswith("__"):
+                    continue
+                if isinstance(val, (dict, list, set)):
+                    out.append((mod, gname, val))
+    return out
+
+
+def _restore(val, pristine):
+    if isinstance(val, dict):
+        val.clear()
+        val.update(pristine)
+    elif isinstance(val, list):
+        val[:] = pristine
+    else:
+        val.clear()
+        val.update(pristine)
+
+
 def new_item():
     """
     Between independent work items (no world of the previous item is used any more): bring every
     class-level mutable container of the structure classes (Vertex._CACHE_STATS, and any other
-    dict / list / set a class body defines) back to its content at import time, in place.  This
-    owns the library's class-level global state, so that executions are independent of what a
-    long-lived worker ran before and every reported history replays from a fresh process.
-    (The singleton registries are handled by the C17/C18 worlds themselves.)
+    dict / list / set a class body defines) and every module-level dict / list / set of the
+    edgegraph package (e.g. plantuml's default option table, which the renderer edits in place)
+    back to its content at first sight, in place.  This owns the library's global state, so that
+    executions are independent of what a long-lived worker ran before and every reported case
+    replays from a fresh process.  (The singleton registries are handled by the C17/C18 worlds.)
     """
     import copy as _copy
     Vertex.NEIGHBOR_CACHING = False
@@ -75,15 +104,16 @@ def new_item():
                     # first sight: the table that maps uids to statistics starts empty; anything else
                     # is taken as it is now (first call happens before any world is built)
                     _PRISTINE[key] = type(val)() if name == "_CACHE_STATS" else _copy.copy(val)
-                pristine = _PRISTINE[key]
-                if isinstance(val, dict):
-                    val.clear()
-                    val.update(pristine)
-                elif isinstance(val, list):
-                    val[:] = pristine
-                else:
-                    val.clear()
-                    val.update(pristine)
+                _restore(val, _PRISTINE[key])
+    for mod, gname, val in _library_module_globals():
+        key = (mod.__name__, gname)
+        if key not in _MODULE_PRISTINE:
+            try:
+                _MODULE_PRISTINE[key] = _copy.deepcopy(val)
+            except Exception:  # noqa: BLE001 - not copyable: leave it alone
+                _MODULE_PRISTINE[key] = None
+        if _MODULE_PRISTINE[key] is not None:
+            _restore(val, _copy.deepcopy(_MODULE_PRISTINE[key]))
 
 
 class SWorld:
